@@ -1,6 +1,6 @@
 """C10 -- a length limit bounds what a nested parser may consume; reported consumption == symbols actually taken."""
 from vrt import glue, sim, ref_cip as ref
-from vrt.ob import define
+from vrt.ob import define, concretize
 import cpppo
 from cpppo.server.enip import parser, device, logix
 
@@ -37,7 +37,7 @@ def run_limited(machine, blocks, lim, rep=None):
 
 def check_limit(name, bs, lim, cut):
     m, minimum = MACHINES[name]
-    cut = cut % (len(bs) + 1)
+    cut = concretize(cut, len(bs) + 1)
     term, sent, remaining, failed, data = run_limited(m, [bs[:cut], bs[cut:]], lim)
     ok = sent == len(bs) - len(remaining) and remaining == bs[len(bs) - len(remaining):]      # reported == actually taken, in order
     ok = ok and sent <= len(bs)
@@ -73,7 +73,7 @@ add('SSTRING', parser.SSTRING(context='m', limit=L, terminal=True), [3, 65, 66, 
 add('STRING', parser.STRING(context='m', limit=L, terminal=True), [3, 0, 65, 66, 67, 0, 9])
 add('EPATH', parser.EPATH(context='m', limit=L, terminal=True), [2, 0x20, 6, 0x24, 1, 0x30], nsym=2)
 add('EPATH_padded', parser.EPATH_padded(context='m', limit=L, terminal=True), [1, 0, 0x01, 0x05, 0x99], nsym=2)
-add('EPATH_single', parser.EPATH_single(context='m', limit=L, terminal=True), [0x91, 3, 65, 66, 67, 0, 0x20], nsym=2)
+add('EPATH_single', parser.EPATH_single(context='m', limit=L, terminal=True), [0x91, 3, 65, 66, 67, 0, 0x20], nsym=2, tier='thorough')
 add('status', parser.status(context='m', limit=L, terminal=True), [0xff, 1, 5, 0x21, 0x77])
 add('typed_data_INT', parser.typed_data(context='m', tag_type=parser.INT.tag_type, limit=L, terminal=True), [1, 0, 2, 0, 3])
 add('typed_data_SSTRING', parser.typed_data(context='m', tag_type=parser.SSTRING.tag_type, limit=L, terminal=True), [1, 65, 2, 66, 67])
@@ -81,7 +81,7 @@ add('typed_data_UDINT', parser.typed_data(context='m', tag_type=parser.UDINT.tag
 add('CPF', parser.CPF(context='m', limit=L, terminal=True), [2, 0, 0, 0, 0, 0, 0xb2, 0, 2, 0, 0x0e, 0x00, 0x77])
 add('CPF_unrecognized', parser.CPF(context='m', limit=L, terminal=True), [1, 0, 0x34, 0x12, 3, 0, 1, 2, 3, 0x77], tier='thorough')
 add('unconnected_send', parser.unconnected_send(context='m', limit=L, terminal=True),
-    ref.unconnected_send([0x4c, 2, 0x91, 1, 65, 0, 1, 0], [{'port': 1, 'link': 0}]) + [0x77], nsym=2)
+    ref.unconnected_send([0x4c, 2, 0x91, 1, 65, 0, 1, 0], [{'port': 1, 'link': 0}]) + [0x77], nsym=1)
 add('communications_service', parser.communications_service(context='m', limit=L, terminal=True), [1, 0, 0x20, 0, 65, 66, 0, 0x77], tier='thorough')
 add('connection_ID', parser.connection_ID(context='m', limit=L, terminal=True), [1, 2, 3, 4, 5])
 add('connection_data', parser.connection_data(context='m', limit=L, terminal=True), [1, 0, 0x4c, 2, 0x20], tier='thorough')
@@ -101,7 +101,7 @@ def service_machine(cls):
 
 
 add('Logix_read_frag_request', service_machine(logix.Logix), ref.read_frag([{'symbolic': 'A'}], 1, 0) + [0x77], nsym=1, tier='thorough')
-add('Logix_read_tag_reply', service_machine(logix.Logix), [0xcc, 0, 0, 0, 0xc3, 0, 5, 0, 6, 0, 0x77], nsym=3)
+add('Logix_read_tag_reply', service_machine(logix.Logix), [0xcc, 0, 0, 0, 0xc3, 0, 5, 0, 6, 0, 0x77], nsym=1)
 add('Logix_write_tag_request', service_machine(logix.Logix), ref.write_tag([{'symbolic': 'A'}], 0xc3, [5, 6]) + [0x77], nsym=1, tier='thorough')
 
 
@@ -113,8 +113,8 @@ def check_length_field(length, b0, b1, b2, lim):
     ok = sent == len(bs) - len(remaining) and remaining == bs[sent:]
     if term:
         # stops at or before BOTH boundaries (its own length field and the enclosing limit); what it stored is exactly what it consumed
-        ok = ok and sent <= 1 + length and sent <= lim and [ord(c) for c in data.m.string] == [b0, b1, b2][:sent - 1]
-        ok = ok and (sent == 1 + length or sent == lim)
+        ok = ok and sent <= 1 + length and sent <= lim and [ord(c) for c in data.m.string] == bs[1:sent]
+        ok = ok and (sent == 1 + length or sent == lim or sent == len(bs))      # stopped by its length field, the enclosing limit, or the end of input
     else:
         ok = ok and (length > 3 or 1 + length > lim)            # fails only when the content or the limit is too short
     return ok
